@@ -16,7 +16,7 @@ from fractions import Fraction
 
 import mpmath
 
-HT, LF, SP, DQ, HASH, DOLLAR, SQ, SEMI, LBR, RBR, US = 9, 10, 32, 34, 35, 36, 39, 59, 91, 93, 95
+HT, LF, CR, SP, DQ, HASH, DOLLAR, SQ, SEMI, LBR, RBR, US = 9, 10, 13, 32, 34, 35, 36, 39, 59, 91, 93, 95
 SPECIAL = {DQ, HASH, DOLLAR, SQ, US, SEMI, LBR, RBR}
 BLANK = {SP, HT, LF}
 
@@ -70,6 +70,9 @@ def py_lex(text: str, with_error_index: bool = False):
     for ch in text:
         c = ord(ch)
         if not (c == HT or c == LF or 32 <= c <= 126):
+            if c == CR and m == 'com':      # a bare CR ends the line and with it the comment (CifLexerDefs!Step)
+                m, bol = 'ws', True
+                continue
             seterr('non_ascii_character' if c > 126 else 'control_character')
             continue
         blank = c in BLANK
@@ -338,6 +341,8 @@ def parse_cif_number(tok: str):
     fp = fp or ''
     if not (ip or fp):
         return None
+    if ex is not None and abs(int(ex)) > 5000:
+        return None     # not a number any double could have been printed as (and 10**ex would not terminate in reasonable time)
     unit = Fraction(10) ** (int(ex or 0) - len(fp))
     val = int((ip or '0') + fp) * unit
     if sign == '-':
